@@ -10,10 +10,18 @@ import (
 // scrollArmForms checks the buffer-scrolling arm of VT.lf: the viewport's lines
 // [viewportY, viewportY+viewportHeight-1) are moved up by one line (stride =
 // viewportWidth*3 bytes) and exactly the viewportWidth cells of the last
-// viewport line are blanked with (' ', defaultFg, defaultBg). Two idioms are
-// accepted for the move: the byte loop data[o] = data[o+stride] for o in
-// [start, end), or copy(data[start:end], data[start+stride:...]). Returns a
-// description of what is wrong for the move and for the clear ("" = ok).
+// viewport line are blanked with (' ', defaultFg, defaultBg).
+//
+// The loops are read in induction form (loops.go), and element addresses as
+// absolute byte indices into VT.data (an index into a sub-slice data[lo:] is
+// lo + index), so that the way the loops count and the way the elements are
+// addressed do not matter:
+//
+//	move:  in iteration T, data[start+T] = data[start+stride+T], for end-start iterations
+//	       (or one copy(data[start:end], data[start+stride:]))
+//	clear: in iteration T, data[end + 3T + k] = (' ', defaultFg, defaultBg)[k], for viewportWidth iterations
+//
+// Returns a description of what is wrong for the move and for the clear ("" = ok).
 func (x *vtx) scrollArmForms() (moveBad, clearBad string) {
 	m := x.m
 	g := newIG(m, x.lf, nil)
@@ -23,35 +31,49 @@ func (x *vtx) scrollArmForms() (moveBad, clearBad string) {
 	start := vY.mul(stride)
 	end := vY.add(vH, 1).add(polyConst(1), -1).mul(stride)
 	isData := func(v ssa.Value) bool { return isLoadOfField(v, x.data) }
-	phiInitStep := func(phi *ssa.Phi) (init Poly, step int64, ok bool) {
-		ok = true
-		gotInit, gotStep := false, false
-		for _, e := range phi.Edges {
-			if b, isB := e.(*ssa.BinOp); isB && b.Op == token.ADD && b.X == ssa.Value(phi) {
-				if k, isC := constInt64(b.Y); isC {
-					step, gotStep = k, true
-					continue
-				}
-			}
-			init, gotInit = z.Of(e), true
+	// absIndex: the absolute index into VT.data of an element address
+	var sliceBase func(v ssa.Value, depth int) (Poly, bool)
+	sliceBase = func(v ssa.Value, depth int) (Poly, bool) {
+		if depth > 4 {
+			return nil, false
 		}
-		return init, step, ok && gotInit && gotStep
-	}
-	guardBound := func(n int, phi *ssa.Phi) (Poly, token.Token, bool) {
-		for _, f := range g.FactsAt(n) {
-			if f.Y != nil && f.X == ssa.Value(phi) && (f.Op == token.LSS || f.Op == token.LEQ) {
-				return z.Of(f.Y), f.Op, true
-			}
+		if isData(v) {
+			return Poly{}, true
 		}
-		return nil, 0, false
+		if sl, ok := v.(*ssa.Slice); ok {
+			base, ok := sliceBase(sl.X, depth+1)
+			if !ok {
+				return nil, false
+			}
+			if sl.Low != nil {
+				base = base.add(z.Of(sl.Low), 1)
+			}
+			return base, true
+		}
+		if phi, ok := v.(*ssa.Phi); ok {
+			// a sub-slice that is advanced in a loop (cells = cells[3:]) is not an absolute index
+			_ = phi
+		}
+		return nil, false
 	}
+	absIndex := func(ia *ssa.IndexAddr) (Poly, bool) {
+		base, ok := sliceBase(ia.X, 0)
+		if !ok {
+			return nil, false
+		}
+		return base.add(z.Of(ia.Index), 1), true
+	}
+	one := func(p Poly) bool { k, ok := p.isConst(); return ok && k == 1 }
 	// ---- the move
 	moves := 0
 	for n, in := range g.Ins {
 		switch t := in.(type) {
 		case *ssa.Store:
-			ia, ok := t.Addr.(*ssa.IndexAddr)
-			if !ok || !isData(ia.X) {
+			da, ok := t.Addr.(*ssa.IndexAddr)
+			if !ok {
+				continue
+			}
+			if _, ok := sliceBase(da.X, 0); !ok {
 				continue
 			}
 			ld, ok := t.Val.(*ssa.UnOp)
@@ -59,26 +81,41 @@ func (x *vtx) scrollArmForms() (moveBad, clearBad string) {
 				continue
 			}
 			sa, ok := ld.X.(*ssa.IndexAddr)
-			if !ok || !isData(sa.X) {
+			if !ok {
+				continue
+			}
+			if _, ok := sliceBase(sa.X, 0); !ok {
 				continue
 			}
 			moves++
-			phi, ok := stripConv(ia.Index).(*ssa.Phi)
-			if !ok {
-				moveBad = "the scroll copies with an index that is not a loop variable"
+			lf, inLoop := g.loopFormAt(z, t.Block())
+			if !inLoop {
+				moveBad = "the scroll copies one element outside a loop"
 				continue
 			}
-			dst, src := z.Of(ia.Index), z.Of(sa.Index)
-			init, step, ok := phiInitStep(phi)
-			bound, op, okb := guardBound(n, phi)
+			dst, okd := absIndex(da)
+			src, oks := absIndex(sa)
+			var d0, dStep, s0, sStep Poly
+			okA := okd && oks
+			if okA {
+				var ok1, ok2 bool
+				d0, dStep, ok1 = splitT(dst)
+				s0, sStep, ok2 = splitT(src)
+				okA = ok1 && ok2
+			}
+			trips, tripsOK := lf.Trips, lf.TripsOK
+			lf.Done()
 			switch {
-			case !src.equal(dst.add(stride, 1)):
-				moveBad = "the scroll copies from " + src.String() + " to " + dst.String() + "; the source must be one line (viewportWidth*3 bytes) below the destination"
-			case !ok || step != 1 || !init.equal(start):
-				moveBad = "the scroll starts at " + fmt.Sprint(init) + ", expected the first byte of the viewport's first line (" + start.String() + "): lines of the scrollback above the viewport must not move"
-			case !okb || op != token.LSS || !bound.equal(end):
+			case !okA || !one(dStep) || !one(sStep):
+				moveBad = "the scroll copies with indices that do not advance by one byte per iteration"
+			case !s0.equal(d0.add(stride, 1)):
+				moveBad = "the scroll copies from " + s0.String() + " to " + d0.String() + "; the source must be one line (viewportWidth*3 bytes) below the destination"
+			case !d0.equal(start):
+				moveBad = "the scroll starts at " + d0.String() + ", expected the first byte of the viewport's first line (" + start.String() + "): lines of the scrollback above the viewport must not move"
+			case !tripsOK || !trips.equal(end.add(start, -1)):
 				moveBad = "the scroll does not stop at the first byte of the viewport's last line (" + end.String() + ")"
 			}
+			_ = n
 		case *ssa.Call:
 			bi, ok := t.Common().Value.(*ssa.Builtin)
 			if !ok || bi.Name() != "copy" {
@@ -117,53 +154,34 @@ func (x *vtx) scrollArmForms() (moveBad, clearBad string) {
 	} else if moves > 1 && moveBad == "" {
 		moveBad = "the buffer is moved more than once per line feed"
 	}
-	// ---- the clear
+	// ---- the clear: stores of something other than a buffer element into the buffer
 	type clr struct {
-		off int64
-		val string
+		first Poly // absolute index in iteration 0
+		step  Poly
+		val   string
+		trips Poly
+		ok    bool
 	}
 	var clears []clr
-	var clearPhi *ssa.Phi
-	var clearNode int
-	for n, in := range g.Ins {
+	for _, in := range g.Ins {
 		st, ok := in.(*ssa.Store)
 		if !ok {
 			continue
 		}
 		ia, ok := st.Addr.(*ssa.IndexAddr)
-		if !ok || !isData(ia.X) {
+		if !ok {
 			continue
 		}
-		if _, isLoad := st.Val.(*ssa.UnOp); isLoad {
-			if a, ok := loadAddr(st.Val); ok {
-				if _, isIdx := a.(*ssa.IndexAddr); isIdx {
+		if _, ok := sliceBase(ia.X, 0); !ok {
+			continue
+		}
+		if a, ok := loadAddr(st.Val); ok {
+			if sa, isIdx := a.(*ssa.IndexAddr); isIdx {
+				if _, isBuf := sliceBase(sa.X, 0); isBuf {
 					continue // the move
 				}
 			}
 		}
-		idx := z.Of(ia.Index)
-		var phi *ssa.Phi
-		off := int64(0)
-		// idx = phi + const
-		for k, v := range idx {
-			if k == "" {
-				off = v
-			}
-		}
-		base := idx.add(polyConst(off), -1)
-		name, ok := base.singleAtom()
-		if ok {
-			for _, ins := range g.Ins {
-				if p, isPhi := ins.(*ssa.Phi); isPhi && z.defaultAtom(p) == name {
-					phi = p
-				}
-			}
-		}
-		if phi == nil {
-			clearBad = "the last line is blanked with an index that is not a loop variable"
-			continue
-		}
-		clearPhi, clearNode = phi, n
 		val := "?"
 		if k, ok := constInt64(st.Val); ok {
 			val = fmt.Sprintf("%d", k)
@@ -172,55 +190,49 @@ func (x *vtx) scrollArmForms() (moveBad, clearBad string) {
 		} else if isLoadOfField(st.Val, x.defaultBg) {
 			val = "defaultBg"
 		}
-		clears = append(clears, clr{off, val})
+		cl := clr{val: val}
+		if lf, inLoop := g.loopFormAt(z, st.Block()); inLoop {
+			if abs, ok := absIndex(ia); ok {
+				cl.first, cl.step, cl.ok = splitT(abs)
+			}
+			cl.trips = lf.Trips
+			cl.ok = cl.ok && lf.TripsOK
+			lf.Done()
+		}
+		clears = append(clears, cl)
 	}
 	want := map[int64]string{0: "32", 1: "defaultFg", 2: "defaultBg"}
 	if len(clears) != 3 {
-		if clearBad == "" {
-			clearBad = fmt.Sprintf("the new last line is blanked with %d stores per cell, expected (' ', defaultFg, defaultBg)", len(clears))
-		}
+		clearBad = fmt.Sprintf("the new last line is blanked with %d stores per cell, expected (' ', defaultFg, defaultBg)", len(clears))
 		return
 	}
 	for _, cl := range clears {
-		if want[cl.off] != cl.val && clearBad == "" {
-			clearBad = fmt.Sprintf("byte %d of a blanked cell is %s, expected %s", cl.off, cl.val, want[cl.off])
+		if !cl.ok {
+			clearBad = "the last line is blanked with an index that is not a loop variable"
+			return
+		}
+		off, isC := cl.first.add(end, -1).isConst()
+		three, isS := cl.step.isConst()
+		switch {
+		case !isC || off < 0 || off > 2:
+			clearBad = "the blanking does not start at the first byte of the viewport's last line (" + end.String() + ") in steps of one cell"
+		case !isS || three != 3:
+			clearBad = "the blanking does not advance by one cell (3 bytes) per iteration"
+		case want[off] != cl.val:
+			clearBad = fmt.Sprintf("byte %d of a blanked cell is %s, expected %s", off, cl.val, want[off])
+		case !cl.trips.equal(vw):
+			clearBad = "the blanking covers " + cl.trips.String() + " cell(s) of the new last line, expected t.viewportWidth: the remaining cells keep stale characters while the console row is cleared completely"
+		}
+		if clearBad != "" {
+			return
 		}
 	}
-	if clearBad != "" {
-		return
+	seen := map[string]bool{}
+	for _, cl := range clears {
+		seen[cl.val] = true
 	}
-	init, step, ok := phiInitStep(clearPhi)
-	if !ok || step != 3 || !init.equal(end) {
-		clearBad = "the blanking does not start at the first byte of the viewport's last line (" + end.String() + ") in steps of one cell"
-		return
-	}
-	// number of cells: guard on the offset itself, or on a companion counter of the same loop
-	if bound, op, ok := guardBound(clearNode, clearPhi); ok {
-		if op != token.LSS || !bound.equal(end.add(stride, 1)) {
-			clearBad = "the blanking stops at " + bound.String() + ", expected the end of the last line (" + end.add(stride, 1).String() + "): exactly viewportWidth cells must be blanked"
-		}
-		return
-	}
-	cells := ""
-	for _, in := range clearPhi.Block().Instrs {
-		p, ok := in.(*ssa.Phi)
-		if !ok || p == clearPhi {
-			continue
-		}
-		ci, cs, ok := phiInitStep(p)
-		if !ok || cs != 1 {
-			continue
-		}
-		if bound, op, ok := guardBound(clearNode, p); ok {
-			n := bound.add(ci, -1)
-			if op == token.LEQ {
-				n = n.add(polyConst(1), 1)
-			}
-			cells = n.String()
-		}
-	}
-	if cells != vw.String() {
-		clearBad = "the blanking covers " + cells + " cell(s) of the new last line, expected t.viewportWidth: the remaining cells keep stale characters while the console row is cleared completely"
+	if len(seen) != 3 {
+		clearBad = "a blanked cell does not get all of (' ', defaultFg, defaultBg)"
 	}
 	return
 }
